@@ -170,7 +170,8 @@ REG['C12'] = dict(
     text='Lean 4 theorems over a fuel-bounded functional model of the smart sorter (couple/grow/decouple/divide) and of the naive '
          'sorter: the smart sorter always terminates (fuel 2n+2 is never exhausted; the result is independent of the fuel above '
          'n+2) and returns a permutation of the input boxes for every set of boxes and every intersection parameter; coupling '
-         'partitions its input; the naive order is a permutation for every DBSCAN labelling 0..k-1. Exact correspondence of the '
+         'partitions its input; the naive order is a permutation for every DBSCAN labelling 0..k-1; the de-skew rotation there and back is '
+         'the identity on every geometry and an isometry in between (exact arithmetic, c^2+s^2=1). Exact correspondence of the '
          'region ORDER with the real sorters on integer layouts (grids, overlapping in both axes, identical, degenerate boxes); '
          'slanted pages and arbitrary outlines (L-shapes, zero-width spurs, self-overlapping rings, bow-ties): oracle (permutation, '
          'content intact, polygons equal vertex by vertex as shapes up to 1e-6).',
